@@ -5,6 +5,7 @@ pub mod c03;
 pub mod c04;
 pub mod c12;
 pub mod c16;
+pub mod c17;
 pub mod c19;
 pub mod mutate;
 pub mod pipeline;
@@ -33,6 +34,7 @@ pub fn registry() -> Vec<Property> {
         Property { id: "C04", gen: c04::gen, exec: c04::exec, shrink: c04::shrink, runs: (160, 2500) },
         Property { id: "C12", gen: c12::gen, exec: c12::exec, shrink: c12::shrink, runs: (3000, 60000) },
         Property { id: "C16", gen: c16::gen, exec: c16::exec, shrink: c16::shrink, runs: (400, 8000) },
+        Property { id: "C17", gen: c17::gen, exec: c17::exec, shrink: c17::shrink, runs: (240, 5000) },
         Property { id: "C19", gen: c19::gen, exec: c19::exec, shrink: c19::shrink, runs: (40, 600) },
     ]
 }
